@@ -107,6 +107,15 @@ func c17Configs(tier string) []c17cfg {
 			}
 			cfgs = append(cfgs, c17cfg{cmd: "deploy", pre: "absent", scripts: []pscript{s}, to: to})
 			cfgs = append(cfgs, c17cfg{cmd: "deploy", pre: "active", scripts: []pscript{ok, s}, inflight: []string{"early"}, to: to})
+			if s.firstOK > 0 && s.firstOK < vT-time.Second && to == 0 {
+				// one target healthy late but in time, the other just after the timeout
+				for _, l := range scripts {
+					if l.firstOK > vT {
+						cfgs = append(cfgs, c17cfg{cmd: "deploy", pre: "absent", scripts: []pscript{s, l}, to: to})
+						cfgs = append(cfgs, c17cfg{cmd: "deploy", pre: "absent", scripts: []pscript{l, s}, to: to})
+					}
+				}
+			}
 			if tier != "quick" {
 				cfgs = append(cfgs, c17cfg{cmd: "rollout", pre: "rollout", scripts: []pscript{s, ok}, inflight: []string{"never"}, to: to})
 				cfgs = append(cfgs, c17cfg{cmd: "rollout", pre: "active", scripts: []pscript{s}, to: to})
